@@ -169,3 +169,47 @@ Example C22_depth_list_nonvacuous :
   map sd_of_hd (create_depth_list [h1; h2]) = [SVar false 0 1; SLit 1].
 Proof. exact depth_list_nonvacuous. Qed.
 Print Assumptions C22_depth_list_nonvacuous.
+
+(* ---- the placement step itself, untransformed invokes (coq/C22/Place.v: model of create_halo_exchanges).
+   Full statement: forall invoke, outside the gaps, well_placed (place invoke) = true.  Proved for every field
+   with AT MOST THREE loops touching it, loops drawn from the base-case universe (all access modes x loop
+   bounds of LFRicLoop.load x continuity x stencil kinds), by exhaustive vm_compute sweep lifted to a
+   forall-statement; the unbounded induction is missing ([_partial]). *)
+From PV Require Import C22.Place C22.PlaceProofs.
+
+Theorem C22_place_well_placed_partial : forall cfg cont ls,
+  (length ls <= 3)%nat -> Forall (fun l => In l (universe cfg cont)) ls ->
+  forallb outside_gap ls = true ->
+  well_placed 1 cfg cont (place cfg ls) = true.
+Proof. exact place_well_placed_bounded_. Qed.
+Print Assumptions C22_place_well_placed_partial.
+
+Theorem C22_universe_spec : forall cfg l, base_ok cfg l = true -> In (pl_st l) stencils ->
+  In l (universe cfg (pl_cont l)).
+Proof. exact universe_spec. Qed.
+Print Assumptions C22_universe_spec.
+
+(* hence no dirty read / recorded-cleaner for the generated untransformed code: all M, extents, initial states *)
+Theorem C22_generated_never_reads_dirty_partial : forall cfg cont ls,
+  (length ls <= 3)%nat -> Forall (fun l => In l (universe cfg cont)) ls ->
+  forallb outside_gap ls = true ->
+  forall M e s0, valid_cfg M e -> init_ok cfg M s0 ->
+  match run M e (place cfg ls) s0 false with
+  | Ok s _ => fr s <= fa s /\ (cfg && cont = true -> fann s = true)
+  | Invalid => True
+  | DirtyRead | RecordedCleaner => False
+  end.
+Proof. exact generated_never_reads_dirty_bounded_. Qed.
+Print Assumptions C22_generated_never_reads_dirty_partial.
+
+Example C22_place_nonvacuous :
+  forallb (base_ok false) ex_invoke = true /\ forallb (fun l => pl_cont l) ex_invoke = true /\
+  forallb outside_gap ex_invoke = true /\
+  place false ex_invoke =
+    [ SLoop [(SLit 0, false)] (Some (SLit 0, false)); SDirty;
+      SHx [SVar false 0 0] false;
+      SLoop [(SVar false 0 0, true)] None;
+      SLoop [(SLit 0, true)] (Some (SLit 0, true)); SDirty ] /\
+  well_placed 1 false true (place false ex_invoke) = true.
+Proof. exact place_nonvacuous. Qed.
+Print Assumptions C22_place_nonvacuous.
